@@ -69,7 +69,11 @@ def main(argv=None):
             rec = json.load(f)
         if rec.get('_task'):
             # history-dependent violation: re-run the task (block of cases) it was observed in, from a cold start
-            st, res = core.run_isolated(core.replay_task, (rec['_task'], rec['case']), timeout=3000)
+            if rec['_task'].get('earlier_tasks'):
+                st, res = core.run_isolated(core.replay_worker_history,
+                                            (rec['_task']['earlier_tasks'], rec['_task'], rec['case']), timeout=6000)
+            else:
+                st, res = core.run_isolated(core.replay_task, (rec['_task'], rec['case']), timeout=3000)
             if st == 'ok':
                 res = dict(res, verdict='violation') if res else {'verdict': 'ok', 'detail': 'case not reported by the task'}
         else:
@@ -129,11 +133,23 @@ def main(argv=None):
                 t1 = core.run_isolated(core.replay_task, (cand['_task'], cand['case']), timeout=3000)
                 if t1[0] == 'ok' and t1[1]:
                     t2 = core.run_isolated(core.replay_task, (cand['_task'], cand['case']), timeout=3000)
+            how = 'the earlier cases of its task'
+            if not (t2 and t2[0] == 'ok' and t2[1]) and cand.get('_task', {}).get('history'):
+                # not even the task alone: replay everything the same worker had run before it, in order
+                earlier = core.history_items(cand['_task'])
+                arg = (earlier, cand['_task'], cand['case'])
+                t1 = core.run_isolated(core.replay_worker_history, arg, timeout=6000)
+                t2 = None
+                if t1[0] == 'ok' and t1[1]:
+                    t2 = core.run_isolated(core.replay_worker_history, arg, timeout=6000)
+                if t2 and t2[0] == 'ok' and t2[1]:
+                    cand['_task'] = dict(cand['_task'], earlier_tasks=earlier)
+                    how = 'the %d earlier tasks of the same worker process and the earlier cases of its task' % len(earlier)
             if t2 and t2[0] == 'ok' and t2[1] and core.jsonable(t1[1]) == core.jsonable(t2[1]):
                 cand = dict(t1[1], _task=cand['_task'])
-                cand['detail'] = ('HISTORY-DEPENDENT: correct when processed alone in a fresh interpreter, wrong after the '
-                                  'earlier cases of its task (%s %s) | %s' % (cand['_task']['fn'], cand['_task']['arg_repr'][:160],
-                                                                             cand.get('detail') or ''))
+                cand['detail'] = ('HISTORY-DEPENDENT: correct when processed alone in a fresh interpreter, wrong after %s '
+                                  '(%s %s) | %s' % (how, cand['_task']['fn'], cand['_task']['arg_repr'][:160],
+                                                    cand.get('detail') or ''))
                 confirmed.append(cand)
                 continue
             rep.error('candidate violation did not reproduce in isolation nor by re-running its task: %s'
